@@ -369,6 +369,25 @@ pub fn gen_random(seed: u64, idx: u64) -> Plan {
             conns.push(hostile_conn(&mut r, &mut nonce, 11_000 + i as u16, span));
         }
     }
+    if r.chance(1, 10) {
+        // a burst of connections arriving in the same instant, some of them
+        // between injected accept errors
+        let n = r.usize_in(15, 40);
+        let at = r.range(0, span);
+        for i in 0..n {
+            let mut c = blank_conn(12_000 + i as u16);
+            c.start_ms = at + r.range(0, 2);
+            let w = WorkReq { nonce, steps: r.range(0, 1) as u32, step_ms: r.range(0, 30), panic_at: 0, resp_bytes: 20, body: None, chunked: None };
+            nonce += 1;
+            c.steps.push(Step::Send { data: Blob(w.bytes()), completes: Some(0) });
+            c.steps.push(Step::AwaitResponses { count: 1, max_ms: 60_000 });
+            c.reqs.push(w.plan());
+            if tls {
+                c.kind = ConnKind::Tls;
+            }
+            conns.push(c);
+        }
+    }
     let mut accept_errs = Vec::new();
     if r.chance(1, 3) {
         for _ in 0..r.range(1, 6) {
